@@ -23,7 +23,31 @@ def sh(cmd, cwd=None, timeout=3600):
     return p.returncode, p.stdout
 
 
+LAB = os.environ.get("VERIF_LAB", "main")
+
+
+def run_checks(dst, props, meta):
+    rc, out = sh("python3 lib/lab.py sync %s >/dev/null && python3 lib/lab.py try %s %s --name %s" % (LAB, os.path.join(dst, "patch.diff"), " ".join(props), LAB), cwd=VERIF, timeout=7200)
+    for line in out.splitlines():
+        m = re.match(r"(C\d\d) exit=(\d+) (.*)", line)
+        if m:
+            meta["checks"][m.group(1)] = {"exit": int(m.group(2)), "caught": m.group(2) == "1" and "VIOLATION" in m.group(3),
+                                          "no_failing_input_found": "no-failing-input-found" in m.group(3),
+                                          "line": m.group(3)[-400:]}
+            print(m.group(1), "caught" if meta["checks"][m.group(1)]["caught"] else "MISSED", m.group(3)[-160:])
+
+
+def recheck(name, props):
+    dst = os.path.join(VERIF, "seeded", name)
+    meta = json.load(open(os.path.join(dst, "meta.json")))
+    run_checks(dst, props, meta)
+    json.dump(meta, open(os.path.join(dst, "meta.json"), "w"), indent=1)
+    return 0
+
+
 def main():
+    if len(sys.argv) > 1 and sys.argv[1] == "--recheck":
+        return recheck(sys.argv[2], sys.argv[3].split(","))
     ap = argparse.ArgumentParser()
     ap.add_argument("worktree"); ap.add_argument("sub"); ap.add_argument("name")
     ap.add_argument("--dst", required=True); ap.add_argument("--cmd", required=True)
@@ -51,6 +75,7 @@ def main():
         for d in dsts:
             os.remove(d)            # the suite is the EXISTING one
         rc2, out2 = sh("cargo test --workspace --no-fail-fast --offline 2>&1", cwd=wt)
+        out2 = re.sub(r"\x1b\[[0-9;]*m", "", out2)
         res = re.findall(r"test result: (\w+)\. (\d+) passed; (\d+) failed", out2)
         rec["suite_with_patch_exit"] = rc2
         rec["suite_with_patch_passed"] = sum(int(p) for _, p, _ in res)
@@ -75,13 +100,7 @@ def main():
             "agent_report": {k: v for k, v in meta.items() if k not in ("property", "summary", "needs")},
             "confirmed_by_coordinator": rec, "checks": {}}
     if a.props:
-        props = a.props.split(",")
-        rc, out = sh("python3 lib/lab.py sync >/dev/null && python3 lib/lab.py try %s %s" % (os.path.join(dst, "patch.diff"), " ".join(props)), cwd=VERIF, timeout=7200)
-        for line in out.splitlines():
-            m = re.match(r"(C\d\d) exit=(\d+) (.*)", line)
-            if m:
-                meta["checks"][m.group(1)] = {"exit": int(m.group(2)), "caught": m.group(2) == "1" and "VIOLATION" in m.group(3), "line": m.group(3)[:400]}
-        print(out[-1500:])
+        run_checks(dst, a.props.split(","), meta)
     json.dump(meta, open(os.path.join(dst, "meta.json"), "w"), indent=1)
     print("filed under", dst)
     return 0
